@@ -27,6 +27,14 @@ def shapes(tier):
         for kind in ('p2p', 'bam'):
             for w in (wins if kind == 'p2p' else [1]):
                 yield shape(dll, kind, w)
+    # the ECU is originator of one connection-mode transfer and responder of another at the same time (the peer sends a longer
+    # message the other way): frames that make the receiving thread answer arrive while the job thread is anywhere in its pass
+    for dll in ('j1939-21', 'j1939-22'):
+        sc = shape(dll, 'p2p', 1)
+        unit = 7 if dll == 'j1939-21' else 60
+        sc['script'].append(dict(t=1000, s=1, op='send', a=[0, 0xD1, 0x10, 6, 0x20, dict(seed=9, len=unit * 5 - 2)]))
+        sc['bidir'] = True
+        yield sc
     # the transfer is started from a timer callback, i.e. send_pgn itself runs on the background thread (the idiom of
     # the package's examples): its lines are pre-emption points too
     for dll in ('j1939-21', 'j1939-22'):
@@ -182,14 +190,14 @@ def explore(out, tier, second=0):
             if held is None:
                 continue
             n += 1
-            out.add_case((sc['dll'], sc['kind'], sc['win'], bool(sc.get('from_timer')), json.dumps([sc.get('reuse'), sc.get('chain')], sort_keys=True) + str(len(sc['script'])) + str(sc['script'][-1]['t']), h['s'], h['k'], h['d']), True,
+            out.add_case((sc['dll'], sc['kind'], sc['win'], bool(sc.get('from_timer')), json.dumps([sc.get('reuse'), sc.get('chain'), sc.get('bidir')], sort_keys=True) + str(len(sc['script'])) + str(sc['script'][-1]['t']), h['s'], h['k'], h['d']), True,
                          sample=dict(dll=sc['dll'], kind=sc['kind'], window=sc['win'], hold=h, held_at=held) if len(out.samples) < 4 else None)
             for x in oracle(sc, res) + ([] if (sc.get('reuse') or sc.get('chain')) else same_as_undisturbed(base, res)):
                 key = x['kind']
                 if key not in worst:
                     worst[key] = (dict(x, held_at=held, hold=h), dict(sc, hold=h))
     for sc in shapes(tier):
-        if sc['kind'] != 'p2p' or sc.get('from_timer'):
+        if sc['kind'] != 'p2p' or sc.get('from_timer') or sc.get('bidir'):
             continue
         base = scen.run(dict(sc))
         if oracle(sc, base):
